@@ -193,4 +193,28 @@ mod proofs {
         kani::cover!(a == 0 && b == 2, "first and last snapshot seen");
         core::mem::forget(l);
     }
+
+    /// Registry level, sequential: every action invocation of a delivery happens
+    /// inside an open read section of the registry's data lock - the section the
+    /// writer's barrier in `unregister` waits for (the half-lock harnesses above
+    /// decide that the barrier waits for open sections; this decides that the
+    /// dispatcher keeps its section open while it runs the actions).
+    #[kani::proof]
+    #[kani::unwind(7)]
+    pub fn c01_q_actions_run_inside_read_section() {
+        use signal_hook_registry::{register, unregister};
+        reg::init_globals();
+        let sa = libc::SIGUSR1;
+        let a = ok(unsafe { register(sa, || hit_in_section(1)) });
+        let b = ok(unsafe { register(sa, || hit_in_section(2)) });
+        assert!(a.is_some() && b.is_some(), "C01: registering a catchable signal failed");
+        deliver(sa);
+        assert!(unsafe { L::n } == 2, "C01: the registered actions did not run");
+        assert!(!unsafe { RAN_OUTSIDE_SECTION }, "C01: an action ran outside the read section that obtained it (a concurrent removal returns while the action is still running and the action's captures are released by the delivering thread)");
+        assert!(reg::data_readers() == 0, "C01: a delivery left a read section open");
+        assert!(unregister(a.unwrap()), "C01: unregister of a live id returned false");
+        deliver(sa);
+        assert!(unsafe { L::n } == 3 && !unsafe { RAN_OUTSIDE_SECTION }, "C01: an action ran outside the read section that obtained it, or a removed action ran");
+        kani::cover!(true, "completed");
+    }
 }
